@@ -119,6 +119,8 @@ def program(draw, weights=None, min_steps=8, max_steps=30, prefixes=PREFIXES, se
     vcf_names = [draw(gen.member_name(".vcf", fancy=False)), draw(gen.member_name(".vcf", fancy=fancy_names))]
     other_names = [draw(st.sampled_from(["notes.txt", "blob.bin", "README", "x.json"]))]
     cal_bodies = [draw(gen.calendar_object()) for _ in range(draw(st.integers(3, 5)))]
+    if draw(st.integers(0, 2)) == 0:
+        cal_bodies.append(draw(gen.calendar_object(uid="")))  # a calendar object without UID is accepted too
     card_bodies = [draw(gen.vcard()) for _ in range(3)]
     bad_cal = [draw(gen.invalid_calendar()) for _ in range(2)]
     bad_card = [draw(gen.invalid_vcard())]
@@ -181,6 +183,13 @@ def program(draw, weights=None, min_steps=8, max_steps=30, prefixes=PREFIXES, se
                 name = draw(st.sampled_from(other_names))
                 raw = draw(st.sampled_from([b"hello\n", b"\x00\x01\xff binary", b"", b"second version"]))
                 ctype = "application/octet-stream"
+            if fam == "cal" and op == "PUT" and draw(st.integers(0, 11)) == 0:
+                # the member first holds an object without UID, then one with a UID (and the other way round)
+                pair = [draw(gen.calendar_object(uid=""))["raw"], raw]
+                if draw(st.booleans()):
+                    pair.reverse()
+                steps.append({"op": "PUT", "fe": fe, "afe": afe, "coll": slot, "name": name, "ctype": "text/calendar", "body": enc_body(pair[0]), "cond": []})
+                raw = pair[1]
             steps.append({"op": "PUT", "fe": fe, "afe": afe, "coll": slot, "name": name, "ctype": ctype, "body": enc_body(raw), "cond": maybe_cond()})
         elif op == "POST":
             fam = draw(st.sampled_from(["cal", "card"]))
